@@ -131,6 +131,7 @@ pub fn run(rep: &mut Report) {
         c.groups = vec!["c05"];
         run_cfg::<u32>(rep, c, if thorough { Limits::new(10, 10_000, 60.0) } else { Limits::new(7, 600, 3.0) }, false);
     }
+    scripted_max_frame(rep);
     for f in ["c05.stim-delivered", "c05.stim-reported", "c05.stim-dup-answered", "c05.stim-bad-length", "c05.stim-incomplete", "c05.followup-client-handshake", "c05.followup-server-handshake", "c17.version-adopted"] {
         rep.floor(f, 1);
     }
@@ -142,4 +143,74 @@ pub fn replay(config: &str, labels: &[String]) -> Result<Vec<String>, String> {
         return Err("u32 replays: rerun the check; the history is in the violation detail".into());
     }
     replay_in::<u16>(configs(true).into_iter().chain(configs(false)).collect(), config, labels)
+}
+
+/// One scripted extreme outside the enumerated stimulus space: the largest frame MQTT allows (Remaining Length
+/// 268 435 455) carrying a PUBLISH with an empty topic and a bound alias - resolving the alias makes the packet
+/// longer than any Remaining Length can express. Needs about 0.8 GB for a second or two.
+fn scripted_max_frame(rep: &mut Report) {
+    use crate::conn::{ConnBox, Ev};
+    use crate::refcodec::{self as rc, PVal, Prop, AP};
+    let r = crate::util::guarded(|| {
+        let mut out: Vec<String> = vec![];
+        let ver = Ver::V5;
+        let mut c = ConnBox::<u16>::new(RoleK::Client, Some(ver));
+        let connect = AP::Connect { ver, clean: true, keep_alive: 0, client_id: b"c".to_vec(), will: None, user: None, pass: None, props: vec![Prop { id: 0x22, val: PVal::U16(1) }] };
+        let _ = c.send(crate::bridge::build::<u16>(&connect).ok().unwrap());
+        let _ = c.recv_all(&rc::encode(&AP::Connack { ver, sp: false, code: 0, props: vec![] }, 2));
+        // bind alias 1 to a topic of 8 bytes
+        let _ = c.recv_all(&rc::encode(&AP::Publish { ver, dup: false, qos: 0, retain: false, topic: b"topic/ab".to_vec(), pid: None, props: vec![Prop { id: 0x23, val: PVal::U16(1) }], payload: vec![] }, 2));
+        let payload = 268_435_455usize - (2 + 1 + 3);
+        let mut frame: Vec<u8> = Vec::with_capacity(payload + 16);
+        frame.extend_from_slice(&[0x30, 0xFF, 0xFF, 0xFF, 0x7F, 0x00, 0x00, 0x03, 0x23, 0x00, 0x01]);
+        frame.resize(frame.len() + payload, b'p');
+        let (lists, n) = c.recv_all(&frame);
+        let evs: Vec<Ev> = lists.into_iter().flatten().collect();
+        let delivered = evs.iter().any(|e| matches!(e, Ev::Recv { .. }));
+        let reported = evs.iter().any(|e| matches!(e, Ev::Error(_)));
+        if n != frame.len() {
+            out.push(format!("only {n} of {} bytes consumed", frame.len()));
+        }
+        if !delivered && !reported {
+            out.push("the frame was neither delivered nor reported".into());
+        }
+        out
+    });
+    rep.count("c05.scripted-max-frame", 1);
+    if rep.thorough() {
+        // the same boundary reached by local calls: automatic alias mapping of a maximum-size PUBLISH, and the
+        // stored copy (full topic) of a maximum-size alias-only PUBLISH on a persistent session
+        let r2 = crate::util::guarded(|| {
+            let ver = Ver::V5;
+            let payload_for = |fixed: usize| 268_435_455usize - fixed;
+            // (a) auto-map
+            let mut c = ConnBox::<u16>::new(RoleK::Client, Some(ver));
+            c.set_auto_map(true);
+            let _ = c.send(crate::bridge::build::<u16>(&AP::Connect { ver, clean: true, keep_alive: 0, client_id: b"c".to_vec(), will: None, user: None, pass: None, props: vec![] }).ok().unwrap());
+            let _ = c.recv_all(&rc::encode(&AP::Connack { ver, sp: false, code: 0, props: vec![Prop { id: 0x22, val: PVal::U16(4) }] }, 2));
+            let p = AP::Publish { ver, dup: false, qos: 0, retain: false, topic: b"a".to_vec(), pid: None, props: vec![], payload: vec![b'p'; payload_for(2 + 1 + 1)] };
+            let e1 = c.send(crate::bridge::build::<u16>(&p).ok().unwrap());
+            // (b) persistent session, alias registered, alias-only QoS 1 PUBLISH at the maximum
+            let mut d = ConnBox::<u16>::new(RoleK::Client, Some(ver));
+            let _ = d.send(crate::bridge::build::<u16>(&AP::Connect { ver, clean: true, keep_alive: 0, client_id: b"c".to_vec(), will: None, user: None, pass: None, props: vec![Prop { id: 0x11, val: PVal::U32(100) }] }).ok().unwrap());
+            let _ = d.recv_all(&rc::encode(&AP::Connack { ver, sp: false, code: 0, props: vec![Prop { id: 0x22, val: PVal::U16(4) }] }, 2));
+            let _ = d.send(crate::bridge::build::<u16>(&AP::Publish { ver, dup: false, qos: 0, retain: false, topic: b"topic/ab".to_vec(), pid: None, props: vec![Prop { id: 0x23, val: PVal::U16(1) }], payload: vec![] }).ok().unwrap());
+            let id = d.acquire().unwrap();
+            let q = AP::Publish { ver, dup: false, qos: 1, retain: false, topic: vec![], pid: Some(id), props: vec![Prop { id: 0x23, val: PVal::U16(1) }], payload: vec![b'p'; payload_for(2 + 2 + 1 + 3)] };
+            let e2 = d.send(crate::bridge::build::<u16>(&q).ok().unwrap());
+            (e1.len(), e2.len())
+        });
+        rep.count("c05.scripted-max-frame", 2);
+        if let Err(m) = r2 {
+            rep.violation(crate::report::Violation { rule: "panic".into(), sig: format!("panic|{}|max-frame-send", crate::util::panic_sig(&m)), detail: format!("maximum-size PUBLISH handed to send() (automatic alias mapping / stored copy with the full topic): panic: {m}"), config: "c05 scripted maximum frame".into(), history: vec![serde_json::json!("client v5.0: (a) auto-map, CONNACK(Topic Alias Maximum 4), PUBLISH QoS 0 with Remaining Length 268435455; (b) persistent session, alias 1 registered, PUBLISH QoS 1 empty topic + alias 1 with Remaining Length 268435455")] });
+        }
+    }
+    match r {
+        Ok(v) => {
+            for d in v {
+                rep.violation(crate::report::Violation { rule: "c05.max-frame".into(), sig: "c05.max-frame|classification".into(), detail: format!("largest legal frame (PUBLISH, empty topic + bound alias, Remaining Length 268435455): {d}"), config: "c05 scripted maximum frame".into(), history: vec![serde_json::json!("client v5.0: CONNECT(Topic Alias Maximum 1), CONNACK, PUBLISH topic/ab alias 1, PUBLISH empty topic alias 1 with Remaining Length 268435455")] });
+            }
+        }
+        Err(m) => rep.violation(crate::report::Violation { rule: "panic".into(), sig: format!("panic|{}|max-frame", crate::util::panic_sig(&m)), detail: format!("largest legal frame (PUBLISH, empty topic + bound alias, Remaining Length 268435455): panic: {m}"), config: "c05 scripted maximum frame".into(), history: vec![serde_json::json!("client v5.0: CONNECT(Topic Alias Maximum 1), CONNACK, PUBLISH topic/ab alias 1, PUBLISH empty topic alias 1 with Remaining Length 268435455")] }),
+    }
 }
